@@ -60,7 +60,7 @@ H("engine_selftest_ga_copy", "h_lemmas::engine_selftest_ga_copy", "engine self-t
 H("lemma_spec_honest_agreement", "h_lemmas::lemma_spec_honest_agreement",
   "R1: the composed RFC 9807 reference steps agree: same randomized password, export key, server public key, MACs accepted, equal session keys",
   "password 2, credential id 2, context 2 bytes, client identity absent / 2 bytes, all nonces and keys symbolic; blinds 3 and 5",
-  covers=["agreement"], lemma=True, timeout=2400, mem_gb=16, also_depends=["spec_steps.rs"])
+  covers=["agreement"], lemma=True, timeout=2400, mem_gb=12, also_depends=["spec_steps.rs"])
 H("lemma_spec_prefix_injective", "h_lemmas::lemma_spec_prefix_injective",
   "R2: the 2-byte-length-prefixed encoding of (context, id_u, id_s) is injective", "all splits of 6 symbolic bytes", covers=["different splits"], lemma=True)
 
@@ -115,7 +115,7 @@ H("s7_oprf_key_from_seed_long_cred", "verif_kani_opaque::s7_oprf_key_from_seed_l
 
 H("s14_derive_auth_keypair_loop", "h_derive::s14_derive_auth_keypair_loop",
   "generic KeGroup::derive_auth_keypair: retries with counters 0..255 until a non-zero scalar, passes seed||I2OSP(33,2)||info||counter and DST 'DeriveKeyPair'||'OPRFV1-'||0||'-'||ID, errors after 256 attempts",
-  "scripted group returning zero for the first k in {0..3, 255, 256, 300} attempts; seed symbolic", covers=["first attempt", "last attempt", "gives up"])
+  "scripted group returning zero for the first k in {0, 1, 2, 256} attempts; seed symbolic", covers=["first attempt", "third attempt", "gives up"])
 
 # ---- S12
 H("s12_i2osp_all_usize", "h_inputs::s12_i2osp_all_usize", "I2OSP(n,1)/I2OSP(n,2): Ok <=> n fits, big-endian value", "every usize n",
@@ -158,7 +158,7 @@ SLICE_LOOPS = [(r"chain_iter|update_iter", 8), (r"Chain<|Flatten|FlattenCompat",
 H("s8_mask_response", "verif_kani_opaque::s8_mask_response", "mask_response == Expand(masking_key, nonce||'CredentialResponsePad', 42) XOR (server_pk || envelope)",
   "every masking key, nonce, valid public key, envelope", covers=["reached"], loops=SLICE_LOOPS, timeout=1800)
 H("s8_unmask_response", "verif_kani_opaque::s8_unmask_response", "unmask_response: Ok <=> unmasked public key valid; outputs are the unmasked bytes",
-  "every masking key, nonce, 42-byte masked response", covers=["ok", "rejected"], loops=SLICE_LOOPS, timeout=2400, mem_gb=24)
+  "every masking key, nonce, 42-byte masked response", covers=["ok", "rejected"], loops=SLICE_LOOPS, timeout=2400, mem_gb=16)
 for n, d in (("default_ids", "both identities absent"), ("explicit_ids", "client id 2 bytes, server id 1 byte"), ("mixed_ids", "one absent, one empty")):
     H("s9_seal_" + n, "verif_kani_envelope::s9_seal_" + n,
       "Envelope::seal == RFC 9807 Store: nonce from RNG, client key = DeriveDHKeyPair(Expand(rpwd, nonce||'PrivateKey')), export key, auth_tag over nonce||server_pk||len||id_s||len||id_u",
@@ -188,10 +188,10 @@ for n, d in (("default_ids", "identities absent"), ("explicit_ids", "client 2 by
 # ---- S10 / S11 (tripledh.rs)
 H("s11_derive_3dh_keys", "verif_kani_tripledh::s11_derive_3dh_keys",
   "derive_3dh_keys == RFC 9807 DeriveKeys: Extract(dh1||dh2||dh3), Expand-Label HandshakeSecret/SessionKey with Hash(preamble), ServerMAC/ClientMAC",
-  "every three key pairs and transcript hash", covers=["reached"], timeout=3000, mem_gb=30)
+  "every three key pairs and transcript hash", covers=["reached"], timeout=3000, mem_gb=24)
 H("s11_derive_3dh_keys_external", "verif_kani_tripledh::s11_derive_3dh_keys_external",
   "same through the external-key interface: exactly one diffie_hellman call, failure => the key's own Custom error",
-  "failure at call 0(never)/1/2", covers=["ok", "external key failure"], timeout=3000, mem_gb=30)
+  "failure at call 0(never)/1/2", covers=["ok", "external key failure"], timeout=3000, mem_gb=24)
 for n, d in (("ctx0_default_ids", "empty context, default identities"), ("ctx2_explicit_idu", "2-byte context, explicit 1-byte client identity")):
     H("s10_generate_ke2_" + n, "verif_kani_tripledh::s10_generate_ke2_" + n,
       "TripleDh::generate_ke2 == RFC 9807 AuthServerRespond: fresh nonce/ephemeral key from the RNG, preamble over context, identities, request, response, nonce, key share; server MAC; pending state (Km3, Hash(preamble||mac), session key)",
@@ -202,10 +202,10 @@ for n, d in (("ctx0_default_ids", "empty context, default identities"), ("ctx2_e
 for n, d in (("ctx0_default_ids", "empty context, default identities"), ("ctx2_explicit_idu", "2-byte context, explicit 1-byte client identity")):
     H("s10w_generate_ke2_" + n, "verif_kani_tripledh::s10w_generate_ke2_" + n,
       "TripleDh::generate_ke2 with derive_3dh_keys replaced by its reference (S11): fresh nonce/ephemeral key, preamble over context, identities, request, response, nonce, key share; server MAC; pending state",
-      d + "; request, response, keys, tape symbolic", covers=["reached"], loops=SLICE_LOOPS + KEYLOOPS, timeout=3000, mem_gb=24)
+      d + "; request, response, keys, tape symbolic", covers=["reached"], loops=SLICE_LOOPS + KEYLOOPS, timeout=3000, mem_gb=16)
     H("s10w_generate_ke3_" + n, "verif_kani_tripledh::s10w_generate_ke3_" + n,
       "TripleDh::generate_ke3 with derive_3dh_keys replaced by its reference (S11): Ok <=> received MAC == MAC(Km2, Hash(preamble)); session key; client MAC over Hash(preamble||server_mac); else InvalidLoginError",
-      d + "; request, response, KE2 message, client state, keys symbolic", covers=["accept", "reject"], loops=SLICE_LOOPS + KEYLOOPS, timeout=3000, mem_gb=24)
+      d + "; request, response, KE2 message, client state, keys symbolic", covers=["accept", "reject"], loops=SLICE_LOOPS + KEYLOOPS, timeout=3000, mem_gb=16)
 H("s10_expand_label_limits", "verif_kani_tripledh::s10_expand_label_limits", "hkdf_expand_label == RFC Expand-Label; 256-byte context refused",
   "context 8 symbolic bytes / 256 bytes", covers=["ok", "256 refused"], timeout=1800, mem_gb=18)
 
@@ -224,6 +224,7 @@ G("g4_ristretto_sk_boundaries", "g_ristretto", "ristretto255 deserialize_sk on t
 G("g4_ristretto_lengths_identity", "g_ristretto", "ristretto255 keys of length != 32 refused; identity public key refused", "lengths 0..=64", ["reached"])
 G("g5_p256_sk_decode", "g_nist", "P-256 deserialize_sk: Ok <=> 0 < v < n; re-encodes to the input", "all 2^256 strings", ["ok", "err"], timeout=1800, mem_gb=16)
 G("g6_p256_pk_unknown_tags", "g_nist", "P-256 deserialize_pk refuses every SEC1 tag outside {0,2,3,4,5}", "33-byte strings, tag and x symbolic", ["reached"], timeout=1800, mem_gb=16)
+G("g6_p256_pk_bad_tags", "g_nist", "P-256 deserialize_pk refuses tags 0, 4, 5 on a 33-byte string with a valid x", "3 tags x the generator's x", ["reached"], timeout=1800, mem_gb=16, loops=[(r"sqn|pow|invert", 300)])
 G("g6_p256_pk_tag_cases", "g_nist", "P-256 deserialize_pk with tags 0/2/3/4/5 and the generator's x: accepted => re-encodes to the input; tags 0, 4, 5 refused", "5 tags x concrete valid x", ["ok", "err"], timeout=2400, mem_gb=24, loops=[(r"sqn|pow|invert", 300)])
 
 # ---- W: wiring harnesses (real step functions; private units replaced by reference stubs proved equal in S6-S9; recording key exchange)
@@ -232,20 +233,20 @@ DRAIN = [(r"w_stubs::drain", 100)]
 for n, d in (("default_ids", "identities absent"), ("explicit_ids", "client id 2 bytes, server id 1 byte"), ("mixed_ids", "client absent, server empty")):
     H("w1_client_reg_finish_" + n, "h_wire::w1_client_reg_finish_" + n,
       "ClientRegistration::finish == RFC 9807 FinalizeRegistrationRequest: reflected value refused first; KSF instance forwarded; record = client_pk||masking_key||envelope; export key; server_s_pk of the response; only the envelope nonce is drawn",
-      d + "; state, response, password(2), KSF behaviour, tape symbolic", covers=["ok", "reflected", "ksf failure"], loops=DRAIN + KEYLOOPS, timeout=1800, mem_gb=16, **WDEP)
+      d + "; state, response, password(2), KSF behaviour, tape symbolic", covers=["ok", "reflected", "ksf failure"], loops=DRAIN + KEYLOOPS, timeout=1800, mem_gb=10, **WDEP)
 for n, d in (("default_ids", "identities and context absent"), ("explicit_ids_ctx", "client id 2, server id 1, context 2 bytes"), ("mixed_ids", "client empty, server absent, context 2 bytes")):
     H("w3_client_login_finish_" + n, "h_wire::w3_client_login_finish_" + n,
       "ClientLogin::finish == RFC 9807 RecoverCredentials + AuthClientFinalize wiring: reflected value refused; KSF forwarded; unmask/envelope failure => InvalidLoginError and no key exchange; 3DH gets request, response head, KE2, own state, unmasked server key, recovered client key, effective identities, context; outputs = KE outputs + recovered export key + unmasked server key",
-      d + "; 69-byte state, 117-byte response, password(2), KSF behaviour, KE outcome symbolic", covers=["ok", "reflected", "ksf failure", "invalid login", "mac rejected"], loops=DRAIN + KEYLOOPS, timeout=2400, mem_gb=20, **WDEP)
+      d + "; 69-byte state, 117-byte response, password(2), KSF behaviour, KE outcome symbolic", covers=["ok", "reflected", "ksf failure", "invalid login", "mac rejected"], loops=DRAIN + KEYLOOPS, timeout=2400, mem_gb=14, **WDEP)
 for n, d in (("record", "registered user, no ids/context, credential id 2 bytes"), ("record_ids_ctx", "registered user, explicit ids and context, empty credential id"),
              ("unregistered", "no password file, credential id 2 bytes"), ("unregistered_ids_ctx", "no password file, server id empty, context")):
     H("w2_server_login_start_" + n, "h_wire::w2_server_login_start_" + n,
       "ServerLogin::start == RFC 9807 CreateCredentialResponse + AuthServerRespond wiring: evaluation under the per-credential key; fresh masking nonce (and fake masking key) from the RNG; masked = pad XOR (setup public key || record envelope); fake record for None; 3DH gets request, response head, client key (fake key for None), the setup's static key, effective identities, context",
-      d + "; setup, record, request, KE results, tape symbolic", covers=["ok", "key exchange failure"], loops=DRAIN + KEYLOOPS, timeout=2400, mem_gb=20, **WDEP)
+      d + "; setup, record, request, KE results, tape symbolic", covers=["ok", "key exchange failure"], loops=DRAIN + KEYLOOPS, timeout=2400, mem_gb=14, **WDEP)
 for n in ("external_key", "external_key_unregistered"):
     H("w2_server_login_start_" + n, "h_wire::w2_server_login_start_" + n,
       "ServerLogin::start with an externally held static key: same response/state; exactly one public_key and one diffie_hellman call; key never serialized; failure at either call => the key's own Custom error, no response",
-      "failure at call 0(never)/1/2/3", covers=["ok", "public_key failure", "diffie_hellman failure"], loops=DRAIN + KEYLOOPS, timeout=2400, mem_gb=20, **WDEP)
+      "failure at call 0(never)/1/2/3", covers=["ok", "public_key failure", "diffie_hellman failure"], loops=DRAIN + KEYLOOPS, timeout=2400, mem_gb=14, **WDEP)
 
 # ---- C12 tier: the same harnesses with CBMC's pointer / bounds / division checks on (Rust's own panic checks are
 # always on): no reachable panic, unwrap on None/Err, unreachable!, overflow, out-of-bounds, invalid pointer
@@ -312,13 +313,13 @@ PROPERTIES["C09"] = dict(
     assumptions=["conformance is to the reference model harness/incrate/spec.rs, typed in from RFC 9807 / RFC 9497 (labels, layouts, formulas), over the model suite; SHA-2 and curve arithmetic of the 20 real suites are pinned only by the repository's own RFC vectors"])
 PROPERTIES["C10"] = dict(
     quick=SELF + D_QUICK + ["g1_x25519_sk_decode", "g1_x25519_sk_lengths", "g2_x25519_pk_roundtrip", "g2_x25519_pk_no_alias", "g2_x25519_pk_no_alias_canonical",
-                            "g4_ristretto_lengths_identity", "g5_p256_sk_decode", "g6_p256_pk_unknown_tags", "g6_p256_pk_tag_cases"],
-    thorough=D_ALL + ["g4_ristretto_sk_decode", "g4_ristretto_sk_boundaries"],
+                            "g4_ristretto_lengths_identity", "g4_ristretto_sk_decode", "g4_ristretto_sk_boundaries", "g5_p256_sk_decode", "g6_p256_pk_unknown_tags", "g6_p256_pk_bad_tags"],
+    thorough=D_ALL + ["g6_p256_pk_tag_cases"],
     assumptions=["opaque-ke's own slicing/length logic is decided on the model suite for all 11 decoders; the real groups' byte-level decoders are decided for Curve25519 (all inputs), ristretto255 scalars, P-256 scalars and tag bytes; point decompression (off-curve x, non-canonical ristretto encodings) needs a symbolic field square root and is not decided"])
 PROPERTIES["C11"] = dict(
     quick=SELF + ["d_reg_req", "d_reg_resp", "d_reg_upload", "d_cred_req", "d_cred_resp", "d_setup", "d_client_reg", "d_client_login",
-                  "g1_x25519_sk_decode", "g2_x25519_pk_small_order", "g5_p256_sk_decode", "g6_p256_pk_unknown_tags", "g6_p256_pk_tag_cases"],
-    thorough=["g4_ristretto_sk_decode", "g4_ristretto_sk_boundaries", "d_all_reg_resp", "d_all_client_reg", "d_all_setup"],
+                  "g1_x25519_sk_decode", "g2_x25519_pk_small_order", "g4_ristretto_sk_decode", "g4_ristretto_sk_boundaries", "g5_p256_sk_decode", "g6_p256_pk_unknown_tags", "g6_p256_pk_bad_tags"],
+    thorough=["g6_p256_pk_tag_cases", "d_all_reg_resp", "d_all_client_reg", "d_all_setup"],
     assumptions=["serde paths (bincode / JSON) are not encoded: the serde impls in keypair.rs call the same KeGroup decoders that are decided here (by inspection, not by the solver)",
                  "off-curve / non-canonical point encodings need symbolic decompression: not decided"])
 PROPERTIES["C12"] = dict(
@@ -350,6 +351,6 @@ PROPERTIES["C18"] = dict(
     thorough=["w2_server_login_start_external_key_unregistered", "d_all_setup_xk"],
     assumptions=["the external key is the model MSecretKey (2-byte handle, call log, failure at the n-th call with a caller-chosen code)"])
 PROPERTIES["C19"] = dict(
-    quick=SELF + ["g1_x25519_sk_decode", "g1_x25519_sk_lengths", "g3_x25519_derive", "g2_x25519_pk_roundtrip", "g5_p256_sk_decode", "g4_ristretto_lengths_identity", "s14_derive_auth_keypair_loop"],
-    thorough=["g4_ristretto_sk_decode", "g4_ristretto_sk_boundaries", "g6_p256_pk_tag_cases", "s9_keys_internal"],
+    quick=SELF + ["g1_x25519_sk_decode", "g1_x25519_sk_lengths", "g3_x25519_derive", "g2_x25519_pk_roundtrip", "g5_p256_sk_decode", "g4_ristretto_lengths_identity", "g4_ristretto_sk_decode", "g4_ristretto_sk_boundaries", "s14_derive_auth_keypair_loop"],
+    thorough=["g6_p256_pk_tag_cases", "s9_keys_internal"],
     assumptions=["Diffie-Hellman symmetry and public-key consistency on the five real groups need >= 255 dependent symbolic field multiplications: outside reach, they stay with the repository's proptests; decided: key encodings round-trip, seeded derivation for Curve25519 == RFC 7748 clamp on all 2^256 seeds, scalar range checks"])
